@@ -13,6 +13,17 @@ class PrivateError(Exception):
     pass
 
 
+class ErrorsMethodError(Exception):
+    """a third-party exception whose `errors` is a METHOD (the pydantic style), not tableschema's list attribute"""
+    def errors(self):
+        return [{'loc': ('x',), 'msg': 'bad'}]
+
+
+class ErrorsCountError(Exception):
+    """... or a count"""
+    errors = 3
+
+
 def make_exception(cls_name, tag):
     d = lab.df()
     if cls_name == 'ValueError':
@@ -48,6 +59,10 @@ def make_exception(cls_name, tag):
         return UnicodeDecodeError('utf-8', b'\xff' + tag.encode()[:8], 0, 1, 'injected ' + tag)
     if cls_name == 'UnicodeEncodeError':
         return UnicodeEncodeError('ascii', 'ż' + tag[:8], 0, 1, 'injected ' + tag)
+    if cls_name == 'ErrorsMethodError':
+        return ErrorsMethodError('injected ' + tag)
+    if cls_name == 'ErrorsCountError':
+        return ErrorsCountError('injected ' + tag)
     if cls_name == 'DFValidationError':
         return d.ValidationError('res', {'a': 1}, 0, tse.CastError('inner'))
     raise KeyError(cls_name)
@@ -55,7 +70,7 @@ def make_exception(cls_name, tag):
 
 CLASSES = ['ValueError', 'KeyError', 'AssertionError', 'PrivateError', 'RuntimeError', 'OSError', 'CastError',
            'CastError_with_errors', 'TSValidationError', 'UniqueKeyError', 'DFValidationError', 'StopIteration',
-           'UnicodeDecodeError', 'UnicodeEncodeError']
+           'UnicodeDecodeError', 'UnicodeEncodeError', 'ErrorsMethodError', 'ErrorsCountError']
 
 SHAPES = ['package_fn', 'rows_fn', 'row_fn', 'processor']
 
